@@ -186,7 +186,8 @@ CLAIMED = {
         "in the index domain for symbolic n and 1 <= k <= n, both selections and both dtype classes, over a ghost enumeration of the spectrum (entrywise for "
         "structural rules, where the eigen-equation is proved; by dependency contract for xnp.eig/eigh; by callee contract for the Krylov drivers): k values and "
         "an n x k operator; value i and vector i are the same member; members distinct and in range; every member not returned has magnitude <= (LM) / >= (SM) "
-        "every returned one; the dense routine is applied to the matrix of A; get_slice for all k, n; eigmax/eigmin forwarding; the Auto rule's choice is valid.",
+        "every returned one; the dense routine is applied to the matrix of A; get_slice for all k, n; eigmax/eigmin forwarding; the Auto rule's choice is valid; power_iteration's real closures against the power-method spec (start "
+        "z/||z|| from the keyed draw, lambda' = v^H A v, v' = Av/||Av||, stop on the relative change in magnitude or the cap, returned pair = final state).",
    design_ref="4.10",
    note="Convergence of Lanczos/Arnoldi/power iteration is a callee contract here (C14/C15 decide the decompositions); compute_lower_triangular_eigvecs is covered by a "
         "bounded stand-in (n<=6), not proved; complex entries are opaque values with conjugation and magnitude as uninterpreted functions; LOBPCG is not among the "
